@@ -420,7 +420,11 @@ def chunk_short_bytes(chunk, acc):
     eps_all = [ep_from_bytes, ep_block, ep_xor_from_file, ep_artifact, ep_http]
     for a in range(chunk["hi"], chunk["hi"] + 16):
         acc.states += 1
-        run_input(acc, eps_all + PE_EPS, bytes([a]), {"kind": "short", "data": f"{a:02x}"}, (a,))
+        run_input(acc, eps_all + PE_EPS + [ep_from_bytes_all], bytes([a]), {"kind": "short", "data": f"{a:02x}"}, (a,))
+        # every length 1..12 of a constant and of a varied filler, through the all-keys retry as well
+        for n in range(2, 13):
+            for d in (bytes([a]) * n, bytes((a + i) % 256 for i in range(n))):
+                run_input(acc, [ep_from_bytes_all, ep_from_file], d, {"kind": "short", "data": d.hex()}, ("len", a, n, d[-1]))
         for b in range(256):
             d = bytes([a, b])
             run_input(acc, eps_all, d, {"kind": "short", "data": d.hex()}, (a, b))
